@@ -41,7 +41,7 @@ def params(tier):
     if tier == 'quick':
         return {'examples': 2200, 'wall': 80, 'case_timeout': 40, 'targets': 8}
 
-    return {'examples': 12000, 'wall': 1500, 'case_timeout': 60, 'targets': 20}
+    return {'examples': 12000, 'wall': 600, 'case_timeout': 60, 'targets': 20}
 
 
 def floors(tier):
